@@ -2334,3 +2334,88 @@ func ruleLEX3offsets(c *Ctx, rule string) {
 		c.ok(rule, "template/PushRune/table-offsets", ti.Pos(r.fd.Pos()), "all %d reads of the mode table use offsets computed in this call from the current state's row", n)
 	}
 }
+
+// ---- LEX-1 (fresh fragments): every use of a term builds its own NFA fragment ----
+//
+// Thompson's construction composes fragments by adding ε-edges to their begin and end states. That
+// is sound only if each occurrence of a term owns its states: a fragment kept in a field or map of
+// an AST node (a memo) and handed to two occurrences lets a match enter through one occurrence and
+// leave through the other, so the mode accepts strings no rule defines. No production code of
+// internal/ast may therefore store an NFAComposite (or a slice/map of them) in a struct field or a
+// map; locals are fine.
+func ruleLEX1fresh(c *Ctx, rule string) {
+	p := c.Prog
+	pk := p.Pkg("internal/ast")
+	if pk == nil {
+		c.unres(rule, "internal/ast", "", "package not found")
+		return
+	}
+	info := pk.TypesInfo
+	holdsFragment := func(t types.Type) bool {
+		for i := 0; i < 3 && t != nil; i++ {
+			if typeIs(t, "lexergen/mode", "NFAComposite") {
+				return true
+			}
+			switch u := t.Underlying().(type) {
+			case *types.Pointer:
+				t = u.Elem()
+			case *types.Slice:
+				t = u.Elem()
+			case *types.Map:
+				t = u.Elem()
+			default:
+				return false
+			}
+		}
+		return false
+	}
+	n, bad := 0, 0
+	for _, f := range pk.Syntax {
+		if isTestFile(p.Fset, f) {
+			continue
+		}
+		for _, d := range f.Decls {
+			fd, ok := d.(*ast.FuncDecl)
+			if !ok || fd.Body == nil {
+				continue
+			}
+			ast.Inspect(fd.Body, func(m ast.Node) bool {
+				as, ok := m.(*ast.AssignStmt)
+				if !ok {
+					return true
+				}
+				for i, l := range as.Lhs {
+					var rhsT types.Type
+					if len(as.Rhs) == len(as.Lhs) {
+						rhsT = info.TypeOf(as.Rhs[i])
+					} else if len(as.Rhs) == 1 {
+						rhsT = info.TypeOf(l)
+					}
+					if rhsT == nil || !holdsFragment(rhsT) {
+						continue
+					}
+					n++
+					kept := ""
+					switch x := ast.Unparen(l).(type) {
+					case *ast.SelectorExpr:
+						if fv, _ := selField(info, x); fv != nil && !typeIs(info.TypeOf(x.X), "lexergen/mode", "NFAComposite") {
+							kept = "field " + fv.Name()
+						}
+					case *ast.IndexExpr:
+						if _, isMap := info.TypeOf(x.X).Underlying().(*types.Map); isMap {
+							kept = "map " + exprString(x.X)
+						}
+					}
+					if kept != "" {
+						bad++
+						c.bad(rule, funcKey(pk, fd)+"/fragment-kept", p.Pos(as.Pos()), "an NFA fragment is stored in %s for reuse: two occurrences of the term then share states, so a match can enter through one occurrence and leave through the other (the mode accepts strings no rule defines)", kept)
+					}
+				}
+				return true
+			})
+		}
+	}
+	if bad == 0 {
+		c.ok(rule, "ast/fresh-fragments", "", "%d assignments of NFA fragments examined in internal/ast: all to locals; every occurrence of a term builds its own states", n)
+	}
+}
